@@ -6,6 +6,7 @@ import TdxModel.Drive.Validate
 import TdxModel.Drive.Rtmr
 import TdxModel.Drive.PckExt
 import TdxModel.Drive.CheckTool
+import TdxModel.Drive.Verify
 
 open Tdx Tdx.Proto Tdx.Drive
 
@@ -23,6 +24,8 @@ def dispatch (l : Line) : P String :=
   | "C13" => c13 l
   | "C19.run" => c19 Tdx.CheckTool.fixed l
   | "C19.pinned" => c19 Tdx.CheckTool.pinned l
+  | "V.verify" => Tdx.Drive.V.verify l
+  | "V.levels" => Tdx.Drive.V.levels l
   | op => .error s!"unknown op {op}"
 
 partial def loop (h : IO.FS.Stream) (out : IO.FS.Stream) (blobs : List (Nat × Bytes)) : IO Unit := do
